@@ -58,7 +58,8 @@ def pt(sig):
 
 class T:
     def __init__(self, rust, sig, vals, kind, shape=None, key=False, eq_hash=False, ord_=False,
-                 depth=0, oaa=False, capped=False, unit=False, definition=None, defs=()):
+                 depth=0, oaa=False, capped=False, unit=False, definition=None, defs=(), tags=(),
+                 data_enum=False):
         self.rust = rust            # Rust type expression
         self.sig = sig              # expected signature ("" for unit)
         self.vals = vals            # [(rust expr, RV expr or None for unit)]
@@ -73,6 +74,8 @@ class T:
         self.unit = unit
         self.definition = definition  # source text of the definition (None for library/std types)
         self.defs = list(defs)      # definitions needed (transitively), in order
+        self.tags = set(tags)       # structural tags (identity of findings), inherited by composites
+        self.data_enum = data_enum  # serde sees a data-carrying enum (variant index + payload)
 
 
 def pick(vals, n):
@@ -179,6 +182,13 @@ LIB_LEAVES = [OPATH, SIGNATURE, OVALUE]
 # library (std) generic constructors
 # ------------------------------------------------------------------------------------------------
 
+def tags_of(*ts):
+    out = set()
+    for t in ts:
+        out |= t.tags
+    return out
+
+
 def all_defs(*ts):
     out = []
     for t in ts:
@@ -193,12 +203,18 @@ def comp(t):
     return pick(t.vals, COMPONENT_CAP)
 
 
-def seq_values(elem, mk_expr, depth):
+def seq_tags(elem):
+    return tags_of(elem) | ({"data_enum_in_array"} if elem.data_enum else set())
+
+
+def seq_values(elem, mk_expr, depth, is_set=False):
     ev, capped = comp(elem) if depth >= 2 else (elem.vals, False)
     vals = [(mk_expr([]), "RV::Array(%s, vec![])" % pt(elem.sig))]
     for e, r in ev:
         vals.append((mk_expr([e]), "RV::Array(%s, vec![%s])" % (pt(elem.sig), r)))
     for i in range(min(len(ev), 3)):
+        if is_set and i + 1 >= len(ev):
+            continue  # sets iterate in ascending order: only ascending pairs have a fixed encoding
         a, b = ev[i], ev[(i + 1) % len(ev)]
         vals.append((mk_expr([a[0], b[0]]), "RV::Array(%s, vec![%s, %s])" % (pt(elem.sig), a[1], b[1])))
     return vals, capped
@@ -208,13 +224,15 @@ def vec(elem, depth=None):
     depth = depth if depth is not None else elem.depth + 1
     vals, capped = seq_values(elem, lambda es: "vec![%s]" % ", ".join(es) if es else "Vec::<%s>::new()" % elem.rust, depth)
     return T("Vec<%s>" % elem.rust, "a" + elem.sig, vals, "vec", "Vec<%s>" % elem.shape,
-             eq_hash=elem.eq_hash, depth=depth, oaa=elem.oaa, capped=capped or elem.capped, defs=elem.defs)
+             eq_hash=elem.eq_hash, depth=depth, oaa=elem.oaa, capped=capped or elem.capped, defs=elem.defs,
+             tags=seq_tags(elem))
 
 
 def seq_like(rust_name, ctor, elem):
-    vals, capped = seq_values(elem, lambda es: "%s::<%s>::from_iter(vec![%s])" % (ctor, elem.rust, ", ".join(es)), 1)
+    vals, capped = seq_values(elem, lambda es: "%s::<%s>::from_iter(vec![%s])" % (ctor, elem.rust, ", ".join(es)), 1,
+                              is_set="Set" in rust_name)
     return T("%s<%s>" % (rust_name, elem.rust), "a" + elem.sig, vals, "std", "std:%s<%s>" % (rust_name, elem.shape),
-             depth=1, defs=elem.defs)
+             depth=1, defs=elem.defs, tags=seq_tags(elem))
 
 
 def map_values(k, v, depth):
@@ -243,7 +261,7 @@ def hashmap(k, v, depth=None, ctor="HashMap"):
     kind = "hashmap" if ctor == "HashMap" else "std"
     return T("%s<%s, %s>" % (ctor, k.rust, v.rust), "a{%s%s}" % (k.sig, v.sig), vals, kind,
              "%s<%s,%s>" % (ctor, k.shape, v.shape), depth=depth, oaa=k.oaa or v.oaa,
-             capped=capped or k.capped or v.capped, defs=all_defs(k, v))
+             capped=capped or k.capped or v.capped, defs=all_defs(k, v), tags=tags_of(k, v))
 
 
 def option(elem, depth=None):
@@ -253,7 +271,8 @@ def option(elem, depth=None):
     for e, r in ev:
         vals.append(("Some(%s)" % e, "RV::Array(%s, vec![%s])" % (pt(elem.sig), r)))
     return T("Option<%s>" % elem.rust, "a" + elem.sig, vals, "option", "Option<%s>" % elem.shape,
-             eq_hash=elem.eq_hash, depth=depth, oaa=True, capped=capped or elem.capped, defs=elem.defs)
+             eq_hash=elem.eq_hash, depth=depth, oaa=True, capped=capped or elem.capped, defs=elem.defs,
+             tags=seq_tags(elem))
 
 
 def struct_rv(rvs):
@@ -281,7 +300,7 @@ def tuple_(fields, depth=None):
     return T("(%s,)" % ", ".join(f.rust for f in fields), "(%s)" % "".join(f.sig for f in fields), vals,
              "tuple", "tuple(%s)" % ",".join(f.shape for f in fields),
              eq_hash=all(f.eq_hash for f in fields), depth=depth, oaa=any(f.oaa for f in fields),
-             capped=capped, defs=all_defs(*fields))
+             capped=capped, defs=all_defs(*fields), tags=tags_of(*fields))
 
 
 # ------------------------------------------------------------------------------------------------
@@ -319,7 +338,7 @@ def named_struct(fields, depth=None, kind="struct"):
     oaa = any(f.oaa for f in fields)
     return T(name, "(%s)" % "".join(f.sig for f in fields), vals, kind,
              "struct{%s}" % ",".join(f.shape for f in fields), eq_hash=eqh, depth=depth, oaa=oaa,
-             capped=capped, definition=text, defs=all_defs(*fields) + [(name, text, oaa)])
+             capped=capped, definition=text, defs=all_defs(*fields) + [(name, text, oaa)], tags=tags_of(*fields))
 
 
 def tuple_struct(fields, depth=None):
@@ -333,7 +352,7 @@ def tuple_struct(fields, depth=None):
     oaa = any(f.oaa for f in fields)
     return T(name, "(%s)" % "".join(f.sig for f in fields), vals, "tuple-struct",
              "tuple-struct(%s)" % ",".join(f.shape for f in fields), eq_hash=eqh, depth=depth, oaa=oaa,
-             capped=capped, definition=text, defs=all_defs(*fields) + [(name, text, oaa)])
+             capped=capped, definition=text, defs=all_defs(*fields) + [(name, text, oaa)], tags=tags_of(*fields))
 
 
 def newtype(inner, depth=None):
@@ -344,7 +363,7 @@ def newtype(inner, depth=None):
     vals = [("%s(%s)" % (name, e), r) for e, r in ev]
     return T(name, inner.sig, vals, "newtype", "newtype(%s)" % inner.shape, key=inner.key, eq_hash=inner.eq_hash,
              depth=depth, oaa=inner.oaa, capped=capped or inner.capped, definition=text,
-             defs=all_defs(inner) + [(name, text, inner.oaa)])
+             defs=all_defs(inner) + [(name, text, inner.oaa)], tags=tags_of(inner), data_enum=inner.data_enum)
 
 
 def unit_struct():
@@ -429,7 +448,10 @@ def data_enum(variant_kinds, fields, depth=None):
     oaa = any(f.oaa for f in fields)
     return T(name, "(u%s)" % payload_sig, vals, "data-enum",
              "data-enum[%s](%s)" % ("/".join(variant_kinds), ",".join(f.shape for f in fields)), eq_hash=eqh,
-             depth=depth, oaa=oaa, capped=capped or c2, definition=text, defs=all_defs(*fields) + [(name, text, oaa)])
+             depth=depth, oaa=oaa, capped=capped or c2, definition=text, defs=all_defs(*fields) + [(name, text, oaa)],
+             data_enum=True,
+             tags=tags_of(*fields) | ({"newtype_variant_struct_payload"}
+                                      if "newtype" in variant_kinds and fields[0].sig.startswith("(") else set()))
 
 
 PASCAL = lambda s: "".join(p.capitalize() for p in s.split("_"))
@@ -476,7 +498,7 @@ def dict_struct(fields, style="derive", rename_all=None, sig_attr="a{sv}", depth
     return T(name, "a{sv}", vals, "dict-struct",
              "dict-struct[%s](%s)" % (style, ",".join(("opt:" if o else "") + f.shape for f, o in fields)),
              depth=depth, oaa=oaa, capped=capped or c or any(f.capped for f, _ in fields), definition=text,
-             defs=all_defs(*[f for f, _ in fields]) + [(name, text, oaa)])
+             defs=all_defs(*[f for f, _ in fields]) + [(name, text, oaa)], tags=tags_of(*[f for f, _ in fields]))
 
 
 # ------------------------------------------------------------------------------------------------
@@ -515,7 +537,7 @@ def std_types():
     std("IpAddr", "(uay)",
         [("IpAddr::V4(%s)" % v4e(b), "RV::Struct(vec![RV::U(0), %s])" % octets_array(b)) for b in v4s[1:]] +
         [("IpAddr::V6(%s)" % v6e(b), "RV::Struct(vec![RV::U(1), %s])" % octets_array(b)) for b in v6s[1:]],
-        "IpAddr", eq_hash=True)
+        "IpAddr", eq_hash=True, data_enum=True)
     ports = [0, 8080, 65535]
     std("SocketAddrV4", "((yyyy)q)",
         [("SocketAddrV4::new(%s, %d)" % (v4e(b), p), "RV::Struct(vec![%s, RV::Q(%d)])" % (octets_struct(b), p))
@@ -551,7 +573,8 @@ def std_types():
     out.append(seq_like("BTreeSet", "std::collections::BTreeSet", U8))
     out.append(seq_like("VecDeque", "std::collections::VecDeque", U16))
     # PhantomData<T>: the library declares T's signature for it.
-    out.append(T("PhantomData<u32>", "u", [("PhantomData::<u32>", "RV::U(0)")], "std", "std:PhantomData<u32>", depth=1, eq_hash=True))
+    out.append(T("PhantomData<u32>", "u", [("PhantomData::<u32>", "RV::U(0)")], "std", "std:PhantomData<u32>", depth=1, eq_hash=True,
+                 tags={"phantomdata"}))
     return out
 
 
@@ -616,7 +639,8 @@ def build_bank():
     add(named_struct([U8, unit], depth=2))
     add(tuple_struct([unit, U32], depth=2))
     add(tuple_([U16, T("()", "", [("()", None)], "std", "std:()", unit=True, eq_hash=True)], depth=2))
-    add(named_struct([U8, T("PhantomData<u32>", "u", [("PhantomData::<u32>", "RV::U(0)")], "std", "std:PhantomData<u32>", eq_hash=True)], depth=2))
+    add(named_struct([U8, T("PhantomData<u32>", "u", [("PhantomData::<u32>", "RV::U(0)")], "std", "std:PhantomData<u32>", eq_hash=True,
+                               tags={"phantomdata"})], depth=2))
 
     # depth 2: every outer constructor over every depth-1 representative -----------------------------
     reps = [
@@ -706,6 +730,8 @@ pub struct Meta {
     pub expected_signature: &'static str,
     /// source text of the generated definition(s) this entry introduces ("" for library/std types)
     pub definition: &'static str,
+    /// structural tags (comma separated, sorted), e.g. `data_enum_in_array`: identity of findings
+    pub tags: &'static str,
     /// value list was reduced (base-choice / component cap)
     pub capped: bool,
     /// only exists in the option-as-array build
@@ -755,8 +781,8 @@ def emit(bank):
     out.append("pub static METAS: [Meta; %d] = [\n" % len(bank))
     for i, t in enumerate(bank):
         own_def = t.definition or ""
-        out.append("    Meta { index: %d, rust: %s, kind: %s, shape: %s, depth: %d, expected_signature: %s, definition: %s, capped: %s, oaa: %s },\n" % (
-            i, rstr(t.rust), rstr(t.kind), rstr(t.shape), t.depth, rstr(t.sig), rstr(own_def),
+        out.append("    Meta { index: %d, rust: %s, kind: %s, shape: %s, depth: %d, expected_signature: %s, definition: %s, tags: %s, capped: %s, oaa: %s },\n" % (
+            i, rstr(t.rust), rstr(t.kind), rstr(t.shape), t.depth, rstr(t.sig), rstr(own_def), rstr(",".join(sorted(t.tags))),
             "true" if t.capped else "false", "true" if t.oaa else "false"))
     out.append("];\n\n")
     out.append("/// Calls `v.visit::<T>(meta, values)` for every bank entry that exists in this build.\n")
